@@ -483,6 +483,11 @@ class ScriptGen:
         out.append((b'\x01\x51', b'\xa9\x13' + h[:19] + b'\x87\x61', 'p2sh-19'))
         out.append((b'\x01\x51', b'\xaa\x14' + h + b'\x87', 'hash256-shape'))
         out.append((b'', b'\xa9\x14' + h + b'\x87', 'p2sh-empty-sig'))
+        # 23 bytes, HASH160 first and 0x87 last, but the push is not a 20-byte push: not P2SH
+        for red in (b'\x51', b'\x00', b'\x6a'):
+            out.append((push(red), b'\xa9\x15' + H160(red) + b'\x87', 'p2sh-shape-21-byte-push'))
+            out.append((push(red), b'\xa9\x13' + H160(red)[:19] + b'\x51\x87', 'p2sh-shape-19-byte-push'))
+            out.append((push(red), b'\xa9\x4c\x13' + H160(red)[:19] + b'\x87', 'p2sh-shape-pushdata1'))
         # plain
         out += [(b'\x51', b'\x51', 'two-true'), (b'', b'\x51', 'true'), (b'', b'', 'empty'), (b'\x51', b'', 'sig-only'),
                 (b'\x00', b'', 'false'), (b'\x51', b'\x00', 'false-top'), (b'\x01\x80', b'', 'neg-zero'),
@@ -558,19 +563,63 @@ class C06(Prop, ScriptGen):
                     continue
                 for mask in ADMISSIBLE:
                     yield self.ev(prog, st, mask, tag='1op')
-        # (a') thorough: exhaustive 2-opcode programs over the non-push opcodes
-        if big:
-            nonpush = [0x4f, 0x50] + list(range(0x61, 0xbb)) + [0xfa, 0xff]
-            st8 = [[], [b'\x01'], [b'', b'\x01'], [b'\x01', b'\x02', b'\x03'], [b'\x03', b'\x02', b'\x01', b''],
-                   [b'\x0a', b'\x0b', b'\x0c', b'\x0d', b'\x0e', b'\x02'], [b'\x80', b'\xff\xff\xff\x7f', b'\x01'],
-                   [b'', b'', b'', b'']]
-            for a in nonpush:
-                for b in nonpush:
-                    i += 1
-                    if i % nshards != shard:
-                        continue
-                    for st in st8:
-                        yield self.ev(bytes([a, b]), st, rng.choice(ADMISSIBLE), tag='2op')
+        # (a') exhaustive 2-opcode programs over the opcodes that are not plain pushes (3 stacks quick, 8 thorough),
+        #      and every such opcode in three contexts: with an item on the altstack, inside an executed IF,
+        #      inside a branch that is not executed
+        nonpush = [0x4f, 0x50] + list(range(0x61, 0xbb)) + [0xfa, 0xff]
+        st8 = [[], [b'\x01', b'\x02', b'\x03'], [b'\x0a', b'\x0b', b'\x0c', b'\x0d', b'\x0e', b'\x02'],
+               [b'\x01'], [b'', b'\x01'], [b'\x03', b'\x02', b'\x01', b''], [b'\x80', b'\xff\xff\xff\x7f', b'\x01'],
+               [b'', b'', b'', b'']]
+        for a in nonpush:
+            for b in nonpush:
+                i += 1
+                if i % nshards != shard:
+                    continue
+                for st in (st8 if big else st8[:3]):
+                    yield self.ev(bytes([a, b]), st, 0 if not big else rng.choice(ADMISSIBLE), tag='2op')
+            i += 1
+            if i % nshards != shard:
+                continue
+            for st in st8[:4]:
+                yield self.ev(b'\x51\x6b' + bytes([a]), st, 0, tag='op-with-altstack')
+                yield self.ev(b'\x51\x63' + bytes([a]) + b'\x68', st, 0, tag='op-in-if')
+                yield self.ev(b'\x00\x63' + bytes([a]) + b'\x68', st, 8, tag='op-not-executed')
+                yield self.ev(b'\x51\x63\x67' + bytes([a]) + b'\x68', st, 0, tag='op-in-else-not-executed')
+            # every opcode on deep stacks (near the item limit) and after many counted operations
+            yield self.ev(bytes([a]), [b'\x01'] * 701 + [b'\x02', b'\x03'], 0, tag='op-on-deep-stack')
+            yield self.ev(bytes([a]), [b'\x01'] * 997 + [b'\x02', b'\x02'], 0, tag='op-on-deep-stack')
+            yield self.ev(b'\x61' * 200 + bytes([a]), [b'\x01', b'\x02', b'\x03'], 0, tag='op-at-opcount-limit')
+        # numeric grid: every unary / binary numeric opcode and WITHIN over boundary operands
+        nums = [-2, -1, 0, 1, 2, 127, 128, -128, 255, 256, 2 ** 31 - 1, -(2 ** 31 - 1)]
+        odd = [b'\x80', b'\x00', b'\x00\x80', b'\x01\x00', b'\x00\x00\x00\x80', b'\x00\x00\x00\x00\x80']
+        for x in nums:
+            for y in nums:
+                i += 1
+                if i % nshards != shard:
+                    continue
+                for op in (0x93, 0x94, 0x9a, 0x9b, 0x9c, 0x9d, 0x9e, 0x9f, 0xa0, 0xa1, 0xa2, 0xa3, 0xa4):
+                    yield self.ev(bytes([op]), [numvch(x), numvch(y)], 0, tag='numgrid2')
+                for z in (-1, 0, 1, 2, 2 ** 31 - 1):
+                    yield self.ev(b'\xa5', [numvch(x), numvch(y), numvch(z)], 0, tag='numgrid3')
+            i += 1
+            if i % nshards != shard:
+                continue
+            for op in (0x8b, 0x8c, 0x8f, 0x90, 0x91, 0x92, 0x69, 0x63, 0x64, 0x73, 0x82):
+                yield self.ev(bytes([op]) + (b'\x68' if op in (0x63, 0x64) else b''), [numvch(x)], 0, tag='numgrid1')
+                for o in odd:
+                    yield self.ev(bytes([op]) + (b'\x68' if op in (0x63, 0x64) else b''), [o], 0, tag='numgrid1-noncanonical')
+        # every hash type byte 0..255 with a signature that is valid for it (exhaustive)
+        for ht in range(256):
+            i += 1
+            if i % nshards != shard:
+                continue
+            ti = 1
+            idx = ht % 3
+            pub = self.key(ht % 4)[1]
+            sc = b'\xac'
+            yield self.ev(sc, [self.sign(ht % 4, sc, ti, idx, ht), pub], 0, ti, idx, tag='hashtype')
+            if ht % 16 == 3:
+                yield self.ev(sc, [self.sign(ht % 4, sc, ti, 0, ht), pub], 0, ti, idx, tag='hashtype-wrong-index')
         # (c) limit probes
         for (sc, st) in self.limit_probes(rng):
             i += 1
